@@ -295,6 +295,46 @@ async fn tx_case(live: &mut Live, out: &mut Out, st: &mut Stats, kind: &str, cli
     push(out, st, kind, term, json!({"send": {"client": client, "len": data.len(), "seq0": seq0, "datagrams": dgrams.iter().map(|d| d.len()).collect::<Vec<_>>()}}), fail, n > 0, format!("tx{}{}{}", client, data.len(), fnv(&data)));
 }
 
+// ---- one very large send() (1 MiB = 874 records): oracle only; the proxy may lose datagrams of such a burst at
+// its socket buffer, so the captured records are checked individually (position given by their sequence number)
+async fn tx_big_case(live: &mut Live, out: &mut Out, st: &mut Stats, client: bool, t: u64, len: usize) {
+    let dir = Live::dir_from(client);
+    let start = live.log_len();
+    let seq0 = 1 + live.sent[side(client)];
+    let data = pat(t, len);
+    let n = (len + PATH_LIMIT - 1) / PATH_LIMIT;
+    let res = live.dtls(client).send(Bytes::from(data.clone())).await;
+    let mut last = 0;
+    let mut quiet = 0;
+    while quiet < 20 { // until nothing new arrived for 100 ms
+        tokio::time::sleep(Duration::from_millis(5)).await;
+        let c = live.log_from(start, dir).len();
+        if c >= n { break; }
+        if c == last { quiet += 1; } else { quiet = 0; last = c; }
+    }
+    let dgrams = live.log_from(start, dir);
+    live.sent[side(client)] += n as u64;
+    let (k, iv) = { let (a, b) = live.keys.write(client); (a.to_vec(), b.to_vec()) };
+    let mut fail: Option<String> = None;
+    if res.is_err() { fail = Some(format!("send() of {} bytes failed: {:?}", len, res.err())); }
+    if dgrams.len() > n { fail.get_or_insert(format!("{} datagrams for {} bytes, expected at most {}", dgrams.len(), len, n)); }
+    for (i, d) in dgrams.iter().enumerate() {
+        let rs = parse_records(d);
+        if rs.len() != 1 || d.len() > DATAGRAM_BUDGET { fail.get_or_insert(format!("datagram {}: not one record within the datagram budget ({} bytes)", i, d.len())); continue; }
+        let r = &rs[0];
+        if let Some(m) = live.note_nonce(client, r) { fail.get_or_insert(m); }
+        if r.ct != 23 || r.epoch != 1 || r.seq < seq0 || r.seq >= seq0 + n as u64 { fail.get_or_insert(format!("datagram {}: ct {} epoch {} seq {} outside [{}, {})", i, r.ct, r.epoch, r.seq, seq0, seq0 + n as u64)); continue; }
+        let off = (r.seq - seq0) as usize * PATH_LIMIT;
+        match open_rec(&k, &iv, r) {
+            Some((_, _, _, Some(pt))) => { if pt[..] != data[off..(off + PATH_LIMIT).min(len)] { fail.get_or_insert(format!("datagram {}: plaintext is not bytes {}.. of the data", i, off)); } }
+            _ => { fail.get_or_insert(format!("datagram {} does not authenticate under the write key", i)); }
+        }
+    }
+    tokio::time::sleep(Duration::from_millis(30)).await;
+    live.drain(!client);
+    push(out, st, "tx-big", "-".into(), json!({"send_big": {"client": client, "len": len, "records_expected": n, "captured": dgrams.len(), "seq0": seq0}}), fail, true, format!("txbig{}{}", client, len));
+}
+
 // ---- concurrent senders (+ optional close), schedule reconstructed from the capture
 #[derive(Clone)]
 struct TaskSpec { calls: Vec<(u64, usize)> } // (pattern id, length)
@@ -444,6 +484,16 @@ fn forged_finished(mseq: u16) -> Vec<u8> {
     plain(22, 0, 90 + mseq as u64, &hs)
 }
 
+/// one unfragmented handshake message in a plaintext epoch-0 Handshake record
+fn plain_hs(msg_type: u8, mseq: u16, body: &[u8], rseq: u64) -> Vec<u8> {
+    let l = body.len() as u32;
+    let mut hs = vec![msg_type, (l >> 16) as u8, (l >> 8) as u8, l as u8];
+    hs.extend_from_slice(&mseq.to_be_bytes());
+    hs.extend_from_slice(&[0, 0, 0, (l >> 16) as u8, (l >> 8) as u8, l as u8]);
+    hs.extend_from_slice(body);
+    plain(22, 0, rseq, &hs)
+}
+
 // ---- injections while the victim has keys but is still Handshaking (final flight held back by the proxy)
 async fn handshaking_case(out: &mut Out, st: &mut Stats, victim_client: bool, ds: Vec<Vec<u8>>, what: &str, foreign: bool) {
     // hold ChangeCipherSpec / epoch-1 records travelling towards the victim for 300 ms
@@ -541,9 +591,10 @@ async fn prekeys_case(out: &mut Out, st: &mut Stats, victim_client: bool, ds: Ve
         fail, true, format!("prek{}{}{}", victim_client, foreign, fnv(&ds.concat())));
 }
 
-// ---- thorough only: callers spinning on send() while the handshake completes. handle_finished publishes
-// `Connected` before it initialises write_epoch / write_seq; a send() that slips into that window would emit
-// an ApplicationData record numbered (0, 0..) or (1, 0) = the Finished record's nonce. Oracle only.
+// ---- callers spinning on send() (yield-free, own OS threads) while the handshake completes. Before fix 9dff55e
+// handle_finished published `Connected` before it initialised write_epoch / write_seq; a send() that slipped into
+// that window emitted an ApplicationData record numbered (0, 0..) (observed: 4 in 1500 handshakes) or (1, 0) = the
+// Finished record's nonce. Oracle only; 60 handshakes in the quick tier, 1500 in the thorough tier.
 async fn race_probe(out: &mut Out, st: &mut Stats, n: usize) {
     let mut anomalies: Vec<String> = vec![];
     let mut records = 0usize;
@@ -552,20 +603,27 @@ async fn race_probe(out: &mut Out, st: &mut Stats, n: usize) {
         st.pairs += 1;
         let stop = Arc::new(std::sync::atomic::AtomicBool::new(false));
         let mut hs = vec![];
+        // yield-free: one OS thread per side spins on send() (polled with a plain executor inside the runtime
+        // context), so it can observe `Connected` at any instruction boundary of the runner task
+        let handle = tokio::runtime::Handle::current();
         for role_client in [true, false] {
             let d = if role_client { pair.client.dtls.clone() } else { pair.server.dtls.clone() };
             let stop = stop.clone();
-            hs.push(tokio::spawn(async move {
+            let handle = handle.clone();
+            hs.push(std::thread::spawn(move || {
+                let _g = handle.enter();
                 let mut sent = 0;
                 let t0 = Instant::now();
                 while sent < 3 && !stop.load(std::sync::atomic::Ordering::Relaxed) && t0.elapsed() < Duration::from_secs(6) {
-                    if d.send(Bytes::from_static(b"race")).await.is_ok() { sent += 1; } else { std::hint::spin_loop(); }
+                    if futures::executor::block_on(d.send(Bytes::from_static(b"race"))).is_ok() { sent += 1; }
                 }
             }));
         }
         let c = wait_dtls_terminal(&pair.client.dtls, Duration::from_secs(8)).await;
         let s2 = wait_dtls_terminal(&pair.server.dtls, Duration::from_secs(8)).await;
-        for h in hs { let _ = tokio::time::timeout(Duration::from_secs(7), h).await; }
+        tokio::time::sleep(Duration::from_millis(5)).await;
+        stop.store(true, std::sync::atomic::Ordering::Relaxed);
+        for h in hs { let _ = h.join(); }
         stop.store(true, std::sync::atomic::Ordering::Relaxed);
         tokio::time::sleep(Duration::from_millis(15)).await;
         if !(matches!(c, DtlsState::Connected(..)) && matches!(s2, DtlsState::Connected(..))) { continue; }
@@ -595,6 +653,12 @@ async fn main() {
     let mut out = Out::new(&args.out);
     let mut st = Stats { kinds: BTreeMap::new(), pairs: 0 };
     let t_start = Instant::now();
+    if std::env::args().any(|a| a == "--only-probe") {
+        let n = std::env::args().position(|a| a == "--race-probe").and_then(|i| std::env::args().nth(i + 1)).and_then(|v| v.parse::<usize>().ok()).unwrap_or(200);
+        race_probe(&mut out, &mut st, n).await;
+        out.finish(json!({"generator": {"only_probe": n, "wall_s": t_start.elapsed().as_secs_f64()}}));
+        return;
+    }
 
     // ================================================================= corpus: F7 / F8 witnesses
     let mut live = Live::connect().await;
@@ -684,6 +748,11 @@ async fn main() {
             else { let t = rng.below(200); tx_case(&mut live, &mut out, &mut st, "tx", client, pat(t, *n), Some((t, *n))).await; }
             live.drain(!client);
         }
+        // 12 000 bytes (10 records) with the model; 1 MiB (874 records) oracle only
+        tx_case(&mut live, &mut out, &mut st, "tx", true, pat(201, 10 * m), Some((201, 10 * m))).await;
+        live.drain(false);
+        tx_big_case(&mut live, &mut out, &mut st, false, 202, 1 << 20).await;
+        if thorough { tx_big_case(&mut live, &mut out, &mut st, true, 203, 1 << 20).await; tx_big_case(&mut live, &mut out, &mut st, true, 204, 3_000_000).await; }
     }
 
     // ================================================================= concurrent senders
@@ -756,6 +825,32 @@ async fn main() {
                     let o = rx_case(&mut live, &mut out, &mut st, "rx-truncate", &format!("{} truncated to {} of {} bytes", name, cut, g.len()), victim_client, vec![g[..cut].to_vec()], cut % 4 == 0).await;
                     refresh(&mut live, &mut st, &o).await;
                     if o.dead || o.changed { break; }
+                }
+            }
+            // (2b) a record split across two (three) datagrams at every position: each piece alone is partial / garbage
+            for (name, g) in genuine.iter().take(2) {
+                let step = if thorough { 1 } else { 2 };
+                let mut cut = 1;
+                while cut < g.len() {
+                    let o = rx_case(&mut live, &mut out, &mut st, "rx-split", &format!("{} split across two datagrams at byte {}", name, cut), victim_client, vec![g[..cut].to_vec(), g[cut..].to_vec()], cut % 5 == 0).await;
+                    refresh(&mut live, &mut st, &o).await;
+                    if o.dead || o.changed { break; }
+                    cut += step;
+                }
+                let (a, b) = (g.len() / 3, 2 * g.len() / 3);
+                let o = rx_case(&mut live, &mut out, &mut st, "rx-split", &format!("{} split across three datagrams", name), victim_client, vec![g[..a].to_vec(), g[a..b].to_vec(), g[b..].to_vec()], false).await;
+                refresh(&mut live, &mut st, &o).await;
+                // (2c) length field larger / smaller than what follows
+                for delta in [1i32, 2, 100, 0xffff, -1, -2, -16] {
+                    let mut d = g.clone();
+                    let l = u16::from_be_bytes([d[11], d[12]]) as i32;
+                    let nl = if delta == 0xffff { 0xffff } else { (l + delta).max(0) } as u16;
+                    d[11..13].copy_from_slice(&nl.to_be_bytes());
+                    let o = rx_case(&mut live, &mut out, &mut st, "rx-length", &format!("{}: length field {} -> {} ({} bytes follow)", name, l, nl, g.len() - 13), victim_client, vec![d.clone()], delta % 2 == 0).await;
+                    refresh(&mut live, &mut st, &o).await;
+                    // the same followed by a genuine record in the next datagram: the bad one must not swallow it
+                    let o = rx_case(&mut live, &mut out, &mut st, "rx-length", &format!("{}: length field {} -> {}, then the genuine record in its own datagram", name, l, nl), victim_client, vec![d, g.clone()], false).await;
+                    refresh(&mut live, &mut st, &o).await;
                 }
             }
             // (3) replays of genuine application records (accepted: no anti-replay window; not a C03 matter), garbage appended
@@ -866,6 +961,13 @@ async fn main() {
             ("plaintext epoch-0 ApplicationData while Handshaking with keys", vec![plain(23, 0, 50, b"EARLY-PLAINTEXT")]),
             ("plaintext epoch-0 close_notify while Handshaking with keys", vec![plain(21, 0, 51, &[1, 0])]),
             ("plaintext epoch-0 app data ++ close_notify in one datagram while Handshaking with keys", vec![[plain(23, 0, 52, b"EARLY"), plain(21, 0, 53, &[1, 0])].concat()]),
+            // unauthenticated handshake-protocol records in the window: forged Finished (every plausible message_seq),
+            // other handshake types with the expected message_seq (would skew recv_message_seq / the transcript)
+            ("forged plaintext epoch-0 Finished (message_seq 0..7) while Handshaking with keys", (0u16..8).map(|m| plain_hs(20, m, &[0xAA; 12], 60 + m as u64)).collect()),
+            ("forged plaintext epoch-0 HelloRequest (message_seq 0..7) while Handshaking with keys", (0u16..8).map(|m| plain_hs(0, m, &[], 70 + m as u64)).collect()),
+            ("forged plaintext epoch-0 ServerHelloDone (message_seq 0..7) while Handshaking with keys", (0u16..8).map(|m| plain_hs(14, m, &[], 80 + m as u64)).collect()),
+            ("forged plaintext epoch-0 first fragment of a 64 KiB message (message_seq 0..7) while Handshaking with keys", (0u16..8).map(|m| { let mut d = plain_hs(11, m, &[7u8; 32], 90 + m as u64); d[14] = 1; d }).collect()),
+            ("plaintext epoch-0 Heartbeat while Handshaking with keys", vec![plain(24, 0, 54, &[1, 0, 0])]),
         ].into_iter().enumerate() {
             handshaking_case(&mut out, &mut st, victim_client, ds, what, i == 1).await;
         }
@@ -879,7 +981,7 @@ async fn main() {
 
     // ================================================================= thorough: send() racing the end of the handshake
     let probe_n = std::env::args().position(|a| a == "--race-probe").and_then(|i| std::env::args().nth(i + 1)).and_then(|v| v.parse::<usize>().ok())
-        .unwrap_or(if thorough { 60 } else { 0 });
+        .unwrap_or(if thorough { 1500 } else { 60 });
     if probe_n > 0 { race_probe(&mut out, &mut st, probe_n).await; }
 
     let wall = t_start.elapsed().as_secs_f64();
